@@ -63,6 +63,9 @@ def record_values(draw):
         "name": draw(st.sampled_from(["sel/rec", "other/type"])),
         # an older / newer generation of the same record type: same name, different field set
         "variant": draw(st.sampled_from([None, None, None, "fewer", "more"])),
+        # the reserved metadata fields are fields like any other for a selector
+        "src": draw(st.sampled_from([None, None, "a", "hello", "x"])),
+        "cls": draw(st.sampled_from([None, None, "x", "FOO"])),
     }
 
 
@@ -76,7 +79,8 @@ def build_record(vals):
 
     fields = list(SEL_FIELDS)
     variant = vals.get("variant")
-    kw = {k: v for k, v in vals.items() if k not in ("rec", "recs", "name", "variant")}
+    kw = {k: v for k, v in vals.items() if k not in ("rec", "recs", "name", "variant", "src", "cls")}
+    kw["_source"], kw["_classification"] = vals.get("src"), vals.get("cls")
     kw["rec"] = None if vals["rec"] is None else mk(vals["rec"])
     kw["recs"] = [mk(v) for v in vals["recs"]]
     if variant == "fewer":
@@ -166,7 +170,7 @@ class G:
     def str_(self, d, env):
         opts = ["lit", "field", "field"]
         if env.get("str"):
-            opts += ["var", "var"]
+            opts += ["var", "var", "fnvar", "fnvar"]
         if d < self.max_depth:
             opts += ["lower", "upper", "concat", "name", "str", "repr", "get_type"] * 3 + ["ctor"]
         k = self.pick(opts)
@@ -176,6 +180,13 @@ class G:
             return "r." + self.pick(STR_FIELDS)
         if k == "var":
             return self.pick(env["str"])
+        if k == "fnvar":
+            # a whitelisted call whose only argument is a loop variable (its value changes per element and record)
+            self.use("call-on-loop-variable")
+            fn = self.pick(["lower", "upper", "str", "string", "lower"])
+            if fn == "string":
+                self.use("ctor:string")
+            return "%s(%s)" % (fn, self.pick(env["str"]))
         if k == "lower":
             self.use("helper:lower")
             return "lower(%s)" % self.str_(d + 1, env)
@@ -244,7 +255,7 @@ class G:
 
     # ---- bool
     def bool_(self, d, env):
-        leaf = ["cmpnum", "cmpstr", "instr", "inlist", "const", "field", "ip", "opt", "seqcmp"]
+        leaf = ["cmpnum", "cmpstr", "instr", "inlist", "const", "field", "ip", "opt", "seqcmp", "meta"]
         if d < self.max_depth:
             opts = leaf + ["and", "or", "not", "chain", "helper", "helper", "gen", "gen", "type", "type", "notin"]
         else:
@@ -296,6 +307,12 @@ class G:
             if form == "in-list-of":
                 return "(%s in [%s, %s])" % (a, b, mk(d + 1, env))
             return "(%s %s %s)" % (a, form, b)
+        if k == "meta":
+            self.use("reserved-field")
+            f = self.pick(["r._source", "r._classification"])
+            return self.pick(["(%s == %s)" % (f, self.pick(["'a'", "'x'", "'hello'", "'FOO'"])), "(%s != None)" % f,
+                              "(%s == None)" % f, "(%s in [None, 'x'])" % f, "(%s != %s)" % (f, self.strlit()),
+                              "(%s == r.s)" % f, "(r._source != r._classification)", "(r._version == 1)"])
         if k == "opt":
             self.use("none-valued-field")
             return self.pick(["(r.opt == None)", "(r.opt != %s)" % self.strlit(), "(r.opt in [None, %s])" % self.strlit(),
@@ -404,6 +421,15 @@ class G:
                 if self.pick([0, 1]):
                     self.use("gen:if")
                     clauses += " if %s" % self.bool_(d + 2, env2)
+            if self.pick([0, 0, 1]):
+                # the element test is a whitelisted call applied to the loop variable itself
+                self.use("call-on-loop-variable")
+                if sort == "str":
+                    body = "(%s(%s) %s %s)" % (self.pick(["lower", "upper", "str"]), v, self.pick(["==", "!=", "in"]),
+                                               self.pick([self.strlit(), "r.s", "lower(r.s2)"]))
+                else:
+                    body = "(str(%s) %s %s)" % (v, self.pick(["==", "!=", "in"]), self.pick(["'1'", "'10'", "str(r.n)"]))
+                return "%s(%s %s)" % (fn, body, clauses)
             return "%s(%s %s)" % (fn, self.bool_(d + 1, env2), clauses)
         raise KeyError(k)
 
